@@ -49,6 +49,8 @@ CHECK = {
          'one with a smaller or equal epoch (coordinator calls are never forced; FORCE and a restart are the only '
          'exceptions) and no call makes a proxy report a finished task it did not report before; a migration task is '
          'committed at most once - the second commit is MIGRATION_TASK_NOT_FOUND, mapped to success (HTTP 404) and '
+         'changes nothing, and any commit request whose (ranges, epoch) is not a pending migration (e.g. a delayed '
+         'duplicate of an earlier migration of the same ranges while a later one is running) is refused and '
          'changes nothing; inside one sync_migration_state the calls are: commit, then only the destination, then only '
          'the source, and the source only after the destination returned Ok - under every fault plan. (coherence, '
          'assuming C04 EpochVersioning) nothing a process holds and nothing a round sends is ahead of the view the '
